@@ -387,7 +387,9 @@ class I2CInitiator(Elaboratable):
             with m.State("IDLE"):
                 m.d.sync += self.busy.eq(1)
                 with m.If(self.start):
-                    with m.If(bus.scl_i & bus.sda_i):
+                    # SDA is only really high if we are not pulling it low ourselves: the synchronized
+                    # sda_i still shows the old level for two cycles after sda_o has changed.
+                    with m.If(bus.scl_i & bus.sda_i & bus.sda_o):
                         m.next = "START-SDA-L"
                     with m.Elif(~bus.scl_i):
                         m.next = "START-SCL-H"
